@@ -369,6 +369,47 @@ def _as_bool(x):
     return z3.BoolVal(x) if isinstance(x, bool) else T(x)
 
 
+def _conjuncts(f, out):
+    if z3.is_and(f):
+        for ch in f.children():
+            _conjuncts(ch, out)
+    else:
+        out.add(f.get_id())
+    return out
+
+
+class Script:
+    """A small proof script run on the path condition: `step(name, hyps, fact)` emits the obligation  hyps => fact  where every
+    hypothesis must be a conjunct of the current path condition or an earlier step of the script (checked syntactically), so each
+    step is a consequence of the path condition proved from FEWER assumptions (sound; it keeps nonlinear steps small).
+    `export(fact)` adds a proved step to the path condition."""
+
+    def __init__(self, vc):
+        self.vc = vc
+        self.known = set()
+        for p in vc.pc:
+            _conjuncts(p, self.known)
+
+    def step(self, name, hyps, fact):
+        vc = self.vc
+        for h in hyps:
+            if not _conjuncts(h, set()) <= self.known:
+                raise OutOfSubset('proof script step %r uses a hypothesis that is not on the path condition' % name)
+        saved = vc.pc
+        vc.pc = list(hyps)
+        try:
+            vc.oblige('lemma-step[%s]' % name, fact)
+        finally:
+            vc.pc = saved
+        _conjuncts(fact, self.known)
+        return fact
+
+    def export(self, fact):
+        if not _conjuncts(fact, set()) <= self.known:
+            raise OutOfSubset('export of an unproved fact')
+        self.vc.assume(fact)
+
+
 class Contains(Contract):
     """Two cases per dimension.  'region-point': the argument is constrained to p = R theta + c with lo <= theta <= hi, and the answer
     must be True.  'any-point': arbitrary p; with the ghost definition y := R^-1 (p - c) the answer must be [lo <= y <= hi] and
@@ -396,36 +437,51 @@ class Contains(Contract):
             s.y = consts('y', D)
         return s, (b.obj(), vec(s.p)), {}
 
-    def requires(self, s):
+    def _hyps(self, s):
         b, D = s.b, self.D
+        h = NS()
         # numpy.linalg.inv (assumed): both products are the identity
-        out = [is_identity(b.Rinv, b.R), is_identity(b.R, b.Rinv)]
+        h.RinvR = [[_ssum([b.Rinv[i][k] * b.R[k][j] for k in range(D)]) == (1 if i == j else 0) for j in range(D)] for i in range(D)]
+        h.RRinv = [[_ssum([b.R[k][i] * b.Rinv[i][m] for i in range(D)]) == (1 if k == m else 0) for m in range(D)] for k in range(D)]
         if self.case == 'region-point':
-            out.append(in_box(s.th, b.lim))
-            out.append(z3.And([s.p[k] == _ssum([b.R[k][j] * s.th[j] for j in range(D)]) + b.c[k] for k in range(D)]))      # p = R theta + c
+            h.box = in_box(s.th, b.lim)
+            h.pdef = [s.p[k] == _ssum([b.R[k][j] * s.th[j] for j in range(D)]) + b.c[k] for k in range(D)]           # p = R theta + c
         else:
             # ghost definition y = R^-1 (p - c), written per monomial
-            out.append(z3.And([s.y[i] == _ssum([b.Rinv[i][m] * s.p[m] - b.Rinv[i][m] * b.c[m] for m in range(D)]) for i in range(D)]))
+            h.ydef = [s.y[i] == _ssum([b.Rinv[i][m] * s.p[m] - b.Rinv[i][m] * b.c[m] for m in range(D)]) for i in range(D)]
+        return h
+
+    def requires(self, s):
+        h = self._hyps(s)
+        out = [z3.And([e for r in h.RinvR for e in r]), z3.And([e for r in h.RRinv for e in r])]
+        if self.case == 'region-point':
+            out += [h.box, z3.And(h.pdef)]
+        else:
+            out += [z3.And(h.ydef)]
         return out
 
-    def lemmas_at_exit(self, s, result):
-        vc, b, D = cur(), s.b, self.D
+    def snapshot(self, s):
+        """runs once, after the preconditions are assumed and before the body: the linear-algebra steps (proof script)"""
+        vc, b, D, h = cur(), s.b, self.D, self._hyps(s)
+        ps = Script(vc)
         if self.case == 'region-point':
             for i in range(D):
-                for k in range(D):
-                    vc.cut('R^-1[%d,%d] times the equation of p_%d' % (i, k, k),
-                           b.Rinv[i][k] * s.p[k] == _ssum([b.Rinv[i][k] * b.R[k][j] * s.th[j] for j in range(D)]) + b.Rinv[i][k] * b.c[k])
-                for j in range(D):
-                    vc.cut('(R^-1 R)[%d,%d] times theta_%d' % (i, j, j), _ssum([b.Rinv[i][k] * b.R[k][j] * s.th[j] for k in range(D)]) == (s.th[j] if i == j else 0))
+                A = [ps.step('R^-1[%d,%d] times the equation of p_%d' % (i, k, k), [h.pdef[k]],
+                             b.Rinv[i][k] * s.p[k] == _ssum([b.Rinv[i][k] * b.R[k][j] * s.th[j] for j in range(D)]) + b.Rinv[i][k] * b.c[k]) for k in range(D)]
+                B = [ps.step('(R^-1 R)[%d,%d] times theta_%d' % (i, j, j), [h.RinvR[i][j]],
+                             _ssum([b.Rinv[i][k] * b.R[k][j] * s.th[j] for k in range(D)]) == (s.th[j] if i == j else 0)) for j in range(D)]
+                ps.export(ps.step('(R^-1 p - R^-1 c)_%d = theta_%d' % (i, i), A + B,
+                                  _ssum([b.Rinv[i][k] * s.p[k] for k in range(D)]) - _ssum([b.Rinv[i][k] * b.c[k] for k in range(D)]) == s.th[i]))
         else:
             for k in range(D):
-                for i in range(D):
-                    vc.cut('R[%d,%d] times the definition of y_%d' % (k, i, i),
-                           b.R[k][i] * s.y[i] == _ssum([b.R[k][i] * b.Rinv[i][m] * s.p[m] - b.R[k][i] * b.Rinv[i][m] * b.c[m] for m in range(D)]))
-                for m in range(D):
-                    vc.cut('(R R^-1)[%d,%d] times p_%d' % (k, m, m), _ssum([b.R[k][i] * b.Rinv[i][m] * s.p[m] for i in range(D)]) == (s.p[m] if k == m else 0))
-                    vc.cut('(R R^-1)[%d,%d] times c_%d' % (k, m, m), _ssum([b.R[k][i] * b.Rinv[i][m] * b.c[m] for i in range(D)]) == (b.c[m] if k == m else 0))
-        return []
+                C = [ps.step('R[%d,%d] times the definition of y_%d' % (k, i, i), [h.ydef[i]],
+                             b.R[k][i] * s.y[i] == _ssum([b.R[k][i] * b.Rinv[i][m] * s.p[m] - b.R[k][i] * b.Rinv[i][m] * b.c[m] for m in range(D)])) for i in range(D)]
+                Dp = [ps.step('(R R^-1)[%d,%d] times p_%d' % (k, m, m), [h.RRinv[k][m]],
+                              _ssum([b.R[k][i] * b.Rinv[i][m] * s.p[m] for i in range(D)]) == (s.p[m] if k == m else 0)) for m in range(D)]
+                Dc = [ps.step('(R R^-1)[%d,%d] times c_%d' % (k, m, m), [h.RRinv[k][m]],
+                              _ssum([b.R[k][i] * b.Rinv[i][m] * b.c[m] for i in range(D)]) == (b.c[m] if k == m else 0)) for m in range(D)]
+                ps.export(ps.step('(R y + c)_%d = p_%d' % (k, k), C + Dp + Dc, s.p[k] == _ssum([b.R[k][i] * s.y[i] for i in range(D)]) + b.c[k]))
+        return {}
 
     def ensures(self, s, result):
         b, D = s.b, self.D
